@@ -168,10 +168,14 @@ rule("Compound", ["'begin' @{ StmtList @C 'end' @}"])
 rule("Body", ["@B 'begin' @{ StmtList @C 'end' @}", "@B 'begin' @{ StmtList @C 'end' @}", "UStmt"], ["@U SimpleBody @."])
 rule("BlockBody", ["@B 'begin' @{ StmtList @C 'end' @}"])
 rule("ThenBody", ["BlockBody", "@U SimpleBody @."], ["@U SimpleBody @."])   # then-branch of an if that has an else (no dangling else)
-rule("IfStmt", ["'if' Expr 'then' Body", "'if' Expr 'then' ThenBody @E 'else' Body", "'if' Expr 'then' ThenBody @E 'else' ElseIf"],
+# (the else branch never starts with an `if` of its own here: that is the ElseIf alternative, `else if` on one line)
+rule("ElseBody", ["@B 'begin' @{ StmtList @C 'end' @}", "@B 'begin' @{ StmtList @C 'end' @}", "@U ElseStmtBody @."], ["@U SimpleBody @."])
+rule("ElseStmtBody", ["Assign", "Assign", "CallStmt", "CallStmt", "CaseStmt", "ForStmt", "WhileStmt", "RepeatStmt", "TryStmt",
+                      "WithStmt", "RaiseStmt", "InheritedStmt", "'exit'", "'break'", "'goto' Ident"], ["Assign", "CallStmt"])
+rule("IfStmt", ["'if' Expr 'then' Body", "'if' Expr 'then' ThenBody @E 'else' ElseBody", "'if' Expr 'then' ThenBody @E 'else' ElseIf"],
      ["'if' Expr 'then' @R SimpleBody @."])
 # the `if` of an `else if` is a construct of its own: chained on the `else` line or (after a comment) on its own, deeper line
-rule("ElseIf", ["@R 'if' Expr 'then' ThenBody @E 'else' Body @.", "@R 'if' Expr 'then' BlockBody @."], ["@R 'if' Expr 'then' BlockBody @."])
+rule("ElseIf", ["@R 'if' Expr 'then' ThenBody @E 'else' ElseBody @.", "@R 'if' Expr 'then' BlockBody @."], ["@R 'if' Expr 'then' BlockBody @."])
 rule("CaseStmt", ["'case' Expr 'of' @{ CaseArm CaseArms @C 'end' @}", "'case' Expr 'of' @{ CaseArm CaseArms 'else' StmtList @C 'end' @}"],
      ["'case' Expr 'of' @{ CaseArm @C 'end' @}"])
 rule("CaseArms", ["", "CaseArm CaseArms"])
